@@ -11,8 +11,8 @@ Rule families (DESIGN.md §10):
        progress, raw-case taint, scratch-builder typestate                                     (rules/panics.py, builder.py, ...)
   C*   type-level / inventory rules: trait-solver obligations, statics, effect inventory       (rules/stateless.py, facade.py)
 """
-from .rules import (builder, dsvm, facade, facadevm, lexeval, lexical, panics, phrases, progress, scanner, scanvm, stateless,
-                    textflow, textvm)
+from .rules import (builder, dsvm, facade, facadevm, lexeval, lexical, panics, phrases, progress, scanner, scanvm, sentences,
+                    stateless, textflow, textvm)
 
 TRUST_COMMON = [
     'rustc nightly 1.97 front end (name resolution, type check, MIR construction) — the facts',
@@ -63,7 +63,7 @@ T_VM = 'static analysis: abstract interpretation of rustc MIR against a finite a
 
 # ------------------------------------------------------------------------------------------------------------------
 reg('C01', 'other',
-    [phrases.rule_roundtrip, textvm.rule_word_splitter, lexeval.rule_lex_card, lexical.rule_scale_contexts, lexical.rule_compose_contexts, lexeval.rule_split_closure,
+    [phrases.rule_roundtrip, sentences.rule_numbers_in_sentences, textvm.rule_word_splitter, lexeval.rule_lex_card, lexical.rule_scale_contexts, lexical.rule_compose_contexts, lexeval.rule_split_closure,
      lexeval.rule_zero_arm, lexeval.rule_conj, lexeval.rule_neg_contexts],
     "A0-ROUNDTRIP: the validator path — the provided exec_group, the language's apply and the crate's own DigitString, all interpreted from MIR — "
     "turns the standard spelling of n and its orthographic variants (hyphen/space, optional conjunction, regional forms) into exactly the digits "
@@ -110,7 +110,10 @@ reg('C03', 'other',
     'DESIGN.md §10.3, §10.5, §2 B1 B2',
     assumptions=['token iterators supplied by the caller are finite'])
 reg('C04', 'other',
-    [lexeval.rule_lex_ord, lexical.rule_group_ordinal, lexeval.rule_split_closure, builder.rule_frozen_first, lexeval.rule_sep_mark],
+    [phrases.rule_ordinal_roundtrip, sentences.rule_ordinals_in_sentences, lexeval.rule_lex_ord, lexical.rule_group_ordinal, lexeval.rule_split_closure, builder.rule_frozen_first,
+     lexeval.rule_sep_mark],
+    "A0-ORDINALS: the validator path (exec_group, apply, the crate's DigitString, interpreted) turns the standard spelling of the n-th ordinal into "
+    "the digits of n with the language's marker and a frozen builder, for every n < 1000 (10 000 thorough) in en, fr, de, nl, it. "
     "A2 every core ordinal form and inflection of the reference lexicon (~750 forms), evaluated through apply, is accepted with the instruction of its "
     "cardinal, receives the expected marker (get_morph_marker and the postlude are evaluated on the form) and freezes the builder where the language "
     "does; A2b the group path (hyphen groups, compounds) carries digits, marker and freeze over; A3 closure of compound ordinal stems (thorough); B4 a "
@@ -118,7 +121,7 @@ reg('C04', 'other',
     'Ordinal mechanism decided by evaluating the interpreter source on ~750 ordinal forms and the formatter on marked builders.',
     'Not decided: the composition for every rank (same limit as C01).', T_LEX, 'DESIGN.md §10.2')
 reg('C05', 'other',
-    [lexeval.rule_dec_table, lexeval.rule_sep_mark, scanvm.rule_decimal_scanner, dsvm.rule_builder_cases],
+    [sentences.rule_decimals_in_sentences, lexeval.rule_dec_table, lexeval.rule_sep_mark, scanvm.rule_decimal_scanner, dsvm.rule_builder_cases],
     "A4 apply_decimal evaluated: en/de append each spoken digit with push (zero synonyms alike, anything else refused), the other languages read the "
     "fraction with apply itself; A5 is_decimal_sep is true exactly on the separator word and format_decimal_and_value renders {int}<mark>{frac} with "
     "leading zeros kept and value {int}.{frac}; V05 the scanner on every script over {number words, zero, separator, ordinal, ordinary word}: integer + "
@@ -146,7 +149,7 @@ reg('C07', 'other',
     MACHINE + ' Agreement on the real vocabularies follows only to the extent that they behave like the abstract language classes.',
     T_VM + '; ' + T_LEX + '; MIR write-before-Err reachability', 'DESIGN.md §10.2, §10.3')
 reg('C08', 'other',
-    [phrases.rule_pairs, lexeval.rule_neg_contexts, lexical.rule_block_contexts, lexeval.rule_flags_lifecycle, lexeval.rule_conj, lexeval.rule_zero_arm,
+    [phrases.rule_pairs, sentences.rule_pairs_in_sentences, lexeval.rule_neg_contexts, lexical.rule_block_contexts, lexeval.rule_flags_lifecycle, lexeval.rule_conj, lexeval.rule_zero_arm,
      dsvm.rule_builder_cases],
     "A0-NO-FUSION: for pairs of numbers below 100 (29 x 29 representative values; all 99 x 99 thorough), with and without the conjunction "
     "between them, the validator path accepts the phrase as ONE number only when the words are (a variant of) the standard spelling of a number, "
@@ -158,7 +161,7 @@ reg('C08', 'other',
     'Not decided: every pair of numbers below 100 in every language (the contexts are the grammar table\'s classes, not all 10^4 pairs).',
     T_LEX + '; ' + T_VM, 'DESIGN.md §10.2, §10.4')
 reg('C09', 'other',
-    [scanvm.rule_lone_policy],
+    [scanvm.rule_lone_policy, sentences.rule_threshold_in_sentences],
     "V09 on every token script (length <= 4, 5 thorough) over {single-digit word, two-digit word, ordinal, linking word, ordinary word, comma, period} "
     "and thresholds 0, 1, 10, 21, inf, NaN (+ 2, 100, -1 thorough): the recognised numbers are the same at every threshold; the reported occurrences "
     "are exactly the recognised numbers minus those small (one digit or ordinal, value < t) and isolated (no same-kind number adjacent once non-breakers "
@@ -167,7 +170,7 @@ reg('C09', 'other',
     'The hold/release policy compared, on the scanner\'s complete case tables, with the policy as the property states it.',
     MACHINE, T_VM, 'DESIGN.md §10.3')
 reg('C10', 'other',
-    [scanvm.rule_fresh_start, lexeval.rule_neuf_annotate, lexeval.rule_o_annotate, scanner.rule_scratch_hygiene, dsvm.rule_builder_cases],
+    [scanvm.rule_fresh_start, sentences.rule_context_in_sentences, lexeval.rule_neuf_annotate, lexeval.rule_o_annotate, scanner.rule_scratch_hygiene, dsvm.rule_builder_cases],
     "V10 on every token script the first word after a finished number is offered to apply on an empty, non-ordinal integer builder in integer mode; "
     "scripts A + [word word word .] + B give the occurrences of A then those of B at thresholds 0, 10, 100; punctuation keeps two numbers apart; "
     "A-NEUF-ANNOTATE / A-O-ANNOTATE: the French and English ambiguity passes, evaluated with the crate's own digit builder on texts with two "
@@ -177,7 +180,7 @@ reg('C10', 'other',
     'Context independence decided on the scanner\'s case tables (fresh start, A+separator+B) and by a typestate analysis of the scratch builders.',
     MACHINE, T_VM + '; MIR typestate dataflow', 'DESIGN.md §10.3, §10.5')
 reg('C11', 'other',
-    [textflow.rule_case_flow, scanvm.rule_case_scanner, scanvm.rule_validator_entry],
+    [textflow.rule_case_flow, scanvm.rule_case_scanner, scanvm.rule_validator_entry, sentences.rule_case_in_sentences],
     "B9 no raw-case text (Token::text, &str parameters of the public API) reaches a vocabulary lookup, lemmatizer or interpreter without passing "
     "through a lowercase conversion (taint flow over the call graph); V11 the scanner's case table is unchanged when every token text is upper-cased "
     "(lowercase form kept); text2digits hands the lower-cased words to the group interpreter.",
@@ -229,7 +232,7 @@ reg('C15', 'other',
     'Lazy/batch agreement, bounded look-ahead and both token hints decided on complete case tables of the two drivers over all token scripts.',
     MACHINE, T_VM, 'DESIGN.md §10.3')
 reg('C16', 'other',
-    [phrases.rule_zeros_phrases, lexeval.rule_zero_arm, lexical.rule_zero_invariance, dsvm.rule_builder_cases],
+    [phrases.rule_zeros_phrases, sentences.rule_zeros_in_sentences, lexeval.rule_zero_arm, lexical.rule_zero_invariance, dsvm.rule_builder_cases],
     "A0-LEADING-ZEROS: k = 1..3 zeros followed by the spelling of n validate to k zeros + digits of n (20 values of n up to 2 000 000, seven "
     "languages), a zero after a number is refused, a lone zero is 0. A6 the zero words issue put(0) whatever the builder holds; A9b for every core cardinal word, scale-word context and group path, apply evaluated on a "
     "builder with 1, 3, 6 leading zeros decides and instructs exactly as with none; V12 the builder counts a zero only while the value is zero, keeps the "
@@ -238,7 +241,7 @@ reg('C16', 'other',
     'Not decided: the scanner-level split of "n zero" for every language (covered for the abstract language by C07/C15 tables).',
     T_LEX + '; ' + T_VM, 'DESIGN.md §10.2, §10.4')
 reg('C17', 'other',
-    [textflow.rule_ws_api, textvm.rule_tokenizer, scanvm.rule_ws_scanner, scanvm.rule_validator_entry],
+    [textflow.rule_ws_api, textvm.rule_tokenizer, scanvm.rule_ws_scanner, scanvm.rule_validator_entry, sentences.rule_ws_in_sentences],
     "B10 no ASCII-only whitespace facility anywhere in the library (call and fn-item inventory); V02-TOKENIZER separators are maximal non-alphanumeric "
     "runs for every class string incl. 2- and 3-byte spaces; V17 the scanner's case table is unchanged when whitespace tokens are replaced by other "
     "Unicode whitespace, when whitespace tokens are added at either end, and when the whitespace glued to punctuation tokens changes; text2digits splits "
@@ -246,7 +249,8 @@ reg('C17', 'other',
     'Whitespace-insensitivity decided by an API inventory plus case tables of tokenizer, scanner and validator entry under whitespace substitution.',
     MACHINE, 'static analysis: callee inventory; ' + T_VM, 'DESIGN.md §10.3')
 reg('C18', 'other',
-    [lexeval.rule_o_annotate, lexeval.rule_zero_arm, lexeval.rule_dec_table, scanner.rule_scratch_hygiene, scanvm.rule_token_hints],
+    [sentences.rule_o_in_sentences, lexeval.rule_o_annotate, lexeval.rule_zero_arm, lexeval.rule_dec_table, scanner.rule_scratch_hygiene,
+     scanvm.rule_token_hints],
     "A-O-ANNOTATE English::basic_annotate evaluated on a table of neighbour combinations (number word / ordinary word / punctuation / text boundary, any "
     "Unicode whitespace between): 'o' is marked exactly when neither nearest non-whitespace token is a number word, nothing else is ever marked, 'o' "
     "behaves as 'zero' in apply and apply_decimal; B7 the scratch builder is fresh at each apply; V15 marked tokens are skipped by the scanner.",
